@@ -205,6 +205,9 @@ def work_whittaker(arg):
                     'converted to bar': lambda: (lambda i_: (i_.convert_pressure(unit_to='bar'), i_)[1])(pygaps.PointIsotherm(temperature=T, temperature_unit='K', **kwp))}
         lq = [float(x) for x in keep[:8]] or [0.3 * params['n_m']]
         res_ = {k_: core.call(lambda mk_=mk_: pgc.enthalpy_sorption_whittaker(mk_(), model=name, loading=lq)) for k_, mk_ in variants.items()}
+        # the model may be named in any letter case (as everywhere else in the library)
+        for spelled in (name.lower(), name.upper(), name[0].lower() + name[1:].upper()):
+            res_[f'model named {spelled!r}'] = core.call(lambda sp_=spelled: pgc.enthalpy_sorption_whittaker(variants['stored in K'](), model=sp_, loading=lq))
         out['ev'] += 1
         b_ = res_['stored in K']
         if b_.ok:
@@ -291,6 +294,57 @@ def check_raw(ctx):
     ctx.add('raw_function', ev, nt)
 
 
+def work_branches(arg):
+    """Isotherm sets with hysteresis: the adsorption branch follows van 't Hoff with one enthalpy, the desorption branch with another."""
+    import pygaps
+    import pygaps.characterisation as pgc
+    gen, dH_ads, dH_des, tname, ri, scale = arg
+    out = {'ev': 0, 'nt': 0, 'viol': []}
+    rep, temps = REPS[ri], TSETS[tname]
+    base = dict(pressure_mode='absolute', pressure_unit='bar', loading_basis='molar', loading_unit='mmol', material_basis='mass', material_unit='g')
+    n = numpy.linspace(0.02, 3.6, 120)
+
+    def build():
+        isos = []
+        for T in temps:
+            cols = []
+            for dH in (dH_ads, dH_des):
+                m = ml.mk(gen, GENERATORS[gen](kfactor(dH, T) * scale), T)
+                cols.append(numpy.array([float(numpy.asarray(m.pressure(x)).reshape(-1)[0]) for x in n]) if gen != 'DSLangmuir' else numpy.asarray(m.pressure(n), dtype=float))
+            iso = pygaps.PointIsotherm(pressure=numpy.concatenate([cols[0], cols[1][::-1]]), loading=numpy.concatenate([n, n[::-1]]),
+                                       branch=numpy.concatenate([numpy.zeros(len(n), dtype=bool), numpy.ones(len(n), dtype=bool)]),
+                                       material='c19', adsorbate=ADS, temperature=T, temperature_unit='K', **base)
+            iso.convert(**rep)
+            isos.append(iso)
+        return isos
+    o = core.call(build)
+    if not o.ok:
+        out['skipped'] = o.brief()
+        return out
+    isos = o.value
+    lo, hi = isos[0].loading(branch='ads').min() * 1.05, isos[0].loading(branch='ads').max() * 0.95
+    for branch, want in (('ads', dH_ads), ('des', dH_des)):
+        for lp in (list(numpy.linspace(lo, hi, 5)), None):
+            r = core.call(pgc.isosteric_enthalpy, isos, branch=branch, loading_points=lp)
+            out['ev'] += 1
+            if not r.ok:
+                out['viol'].append(core.make_violation({'check': 'raises', 'kind': 'point', 'branch': branch, 'kind_of_error': r.kind},
+                                                       f'isosteric {gen} (ads {dH_ads}, des {dH_des}) T={tname} rep#{ri} branch={branch}: {r.brief()}', {'rep': rep}))
+                continue
+            out['nt'] += 1
+            got = numpy.asarray(r.value['isosteric_enthalpy'], dtype=float)
+            e = float(numpy.max(numpy.abs(got - want) / want))
+            if e > 2e-3:
+                other = dH_des if branch == 'ads' else dH_ads
+                eo = float(numpy.max(numpy.abs(got - other) / other))
+                out['viol'].append(core.make_violation(
+                    {'check': 'enthalpy-not-recovered', 'kind': 'point', 'branch': branch, 'what': 'enthalpy of the other branch' if eo < 2e-3 else 'wrong value',
+                     'loading_basis': rep['loading_basis']},
+                    f'isosteric {gen} with hysteresis (adsorption generated with {dH_ads} kJ/mol, desorption with {dH_des}) T={tname} stored as {rep}: branch={branch!r}, '
+                    f'{"explicit" if lp else "default"} loading points: {got[:4]} instead of {want}', {'rep': rep, 'branch': branch}, want, got))
+    return out
+
+
 def run(ctx):
     check_raw(ctx)
     jobs = []
@@ -313,6 +367,13 @@ def run(ctx):
         ctx.track('isosteric_point_isotherms', r['worst_point'], 2e-3)
         if r.get('skipped'):
             skipped.append(r['skipped'])
+    bj = [(gen, a, d, tname, ri, ctx.scale) for gen in (('Langmuir',) if ctx.quick else tuple(GENERATORS)) for a, d in ((18.0, 32.0), (40.0, 25.0))
+          for tname in (('three ordered', 'five shuffled') if ctx.quick else tuple(TSETS)) for ri in range(len(REPS))]
+    for r in core.pmap(work_branches, bj, chunk=1):
+        ctx.add('isosteric_branches', r['ev'], r['nt'])
+        ctx.violate(r['viol'])
+        if r.get('skipped'):
+            skipped.append('branches: ' + r['skipped'])
     ctx.cov['isotherm_sets_that_could_not_be_built'] = skipped[:5]
     wj = []
     for ads, T in (('CO2', 250.0), ('CO2', 285.0), ('N2', 90.0), ('n-butane', 300.0), ('CH4', 150.0)):
